@@ -64,6 +64,8 @@ def check(model: Model, rep: Report, tier: str):
     with rep.isolated():
         r13(model, rep)
     with rep.isolated():
+        r15(model, rep)
+    with rep.isolated():
         from .c03 import h7 as _h7
         from ..effects import Effects as _Eff
         from ..resolve import CallGraph as _CG
@@ -739,6 +741,67 @@ def _alternatives(t: Term, cond: Term):
     if t[0] == "ite":
         return _alternatives(t[2], t_and(cond, t[1])) + _alternatives(t[3], t_and(cond, t_not(t[1])))
     return [(t, cond)]
+
+
+# ---------------------------------------------------------------------------------------------
+def r15(model: Model, rep: Report, rule: str = "C01.R15"):
+    """Every operation books channels on exactly the qubits it names."""
+    rep.rule(rule, "channel_identifiers of every non-composite operation class names exactly the qubits of the operation: one or more identifiers for every qubit-index field "
+                   "(qubit_index, control / target index, every element of qubit_indices, unfiltered) and none for anything else -- the implicit predecessor of an operation and "
+                   "what a barrier holds back are found through these identifiers")
+    ico = model.cls("ICircuitOperation")
+    comp = model.cls("CircuitCompositeOperation")
+    n = 0
+    for K in model.subclasses(ico, concrete_only=True):
+        if K is comp or comp in K.mro():
+            continue
+        f = K.resolve("channel_identifiers")
+        if f is None or "abstractmethod" in f.decorators:
+            raise AnalysisError(f"{K.name}: no channel_identifiers")
+        flds = K.all_fields()
+        scalars = [nm for nm, fi in flds.items() if fi.annotation is not None and "qubit" in nm and "ind" in nm and ast.unparse(fi.annotation) in ("int",)]
+        lists = [nm for nm, fi in flds.items() if fi.annotation is not None and "qubit" in nm and "ind" in nm and ast.unparse(fi.annotation).replace("typing.", "") in ("List[int]", "list[int]", "Sequence[int]")]
+        if not scalars and not lists:
+            raise AnalysisError(f"{K.name}: no qubit-index field recognised among {list(flds)}")
+        try:
+            v = Evaluator(model).value_of(f, self_cls=K)
+        except Unsupported as e:
+            raise AnalysisError(f"{K.name}.channel_identifiers: {e}")
+        from ..sym import _plain_display
+        s_ = sym(f.self_name)
+        v = _plain_display(v)
+        pieces = []
+        if v[0] == "concat":
+            pieces = [_plain_display(x) for x in v[1]]
+        else:
+            pieces = [v]
+        ids_scalar, ids_list, other = set(), set(), []
+        for pc in pieces:
+            if pc[0] in ("list", "tuple"):
+                for el in pc[1]:
+                    if el[0] == "new" and el[1] == "ChannelIdentifier":
+                        idt = dict(el[2]).get("_id")
+                        if idt is not None and idt[0] == "attr" and idt[1] == s_ and idt[2] in scalars:
+                            ids_scalar.add(idt[2])
+                        else:
+                            other.append(show(idt) if idt is not None else "?")
+                    else:
+                        other.append(show(el)[:40])
+            elif pc[0] == "comp" and len(pc[3]) == 1 and pc[2][0] == "new" and pc[2][1] == "ChannelIdentifier":
+                dom, conds = pc[3][0]
+                idt = dict(pc[2][2]).get("_id")
+                if dom[0] == "attr" and dom[1] == s_ and dom[2] in lists and not conds and idt is not None and idt[0] == "bound":
+                    ids_list.add(dom[2])
+                else:
+                    other.append(f"{show(pc)[:60]}")
+            else:
+                other.append(show(pc)[:60])
+        n += 1
+        missing = sorted((set(scalars) - ids_scalar) | (set(lists) - ids_list))
+        rep.check(not missing and not other, rule, f"{K.name}.channel_identifiers", f.loc, found=show(v)[:160], required=f"identifiers for {scalars + lists}",
+                  what=f"{K.name} " + (f"books no channel on {missing}" if missing else f"books channels that are not its qubits ({other[:2]})") +
+                       ": an operation added next on such a qubit does not find it as predecessor (or finds a stranger), and a barrier does not hold that qubit back", detail="qubits")
+    rep.floor("non-composite operation classes (channel coverage)", n, 26)
 
 
 # ---------------------------------------------------------------------------------------------
